@@ -407,6 +407,9 @@ class WSGITask(Task):
 
             if not isinstance(status, str):
                 raise AssertionError("status %s is not a string" % status)
+            # a str subclass may format as something else than the characters
+            # that are checked here: keep the characters
+            status = str.__str__(status)
             if "\n" in status or "\r" in status:
                 raise ValueError(
                     "carriage return/line feed character present in status"
@@ -418,7 +421,7 @@ class WSGITask(Task):
             # application's object once: what is checked below is what is sent
             headers = [(k, v) for k, v in headers]
             content_length = None
-            for k, v in headers:
+            for i, (k, v) in enumerate(headers):
                 if not isinstance(k, str):
                     raise AssertionError(
                         f"Header name {k!r} is not a string in {(k, v)!r}"
@@ -427,6 +430,9 @@ class WSGITask(Task):
                     raise AssertionError(
                         f"Header value {v!r} is not a string in {(k, v)!r}"
                     )
+                # see above: what is checked is what is sent
+                k, v = str.__str__(k), str.__str__(v)
+                headers[i] = (k, v)
 
                 if "\n" in v or "\r" in v:
                     raise ValueError(
